@@ -3,11 +3,11 @@
 # worktree of /repo HEAD under /tmp, runs the quick check of the property it breaks against that worktree
 # (VERIF_REPO, so /repo, evidence/ and replays/ are untouched) and reports caught / MISSED. The worktree is removed at the end.
 cd /verif
-wt=/tmp/seedall-wt
+wt=/tmp/seedall-wt-$$
 git -C /repo worktree remove --force $wt >/dev/null 2>&1
 git -C /repo worktree add -q --detach $wt HEAD || exit 3
 trap 'git -C /repo worktree remove --force $wt >/dev/null 2>&1; git -C /repo worktree prune' EXIT
-out=work/seedall.txt; touch $out
+out=${SEEDALL_OUT:-work/seedall.txt}; touch $out
 for d in seeded/${1:-*}/; do
   id=$(basename $d); prop=${id%%-*}
   if ! git -C $wt apply --check $PWD/$d/patch.diff 2>/dev/null; then grep -v "^$id " $out > $out.tmp; mv $out.tmp $out; echo "$id NOAPPLY" | tee -a $out; continue; fi
@@ -19,4 +19,4 @@ for d in seeded/${1:-*}/; do
   echo "$id $res" | tee -a $out
   [ $rc = 1 ] && rm -f work/seedall-$id.log
 done
-rm -rf work/alt
+[ -z "${SEEDALL_OUT:-}" ] && rm -rf work/alt
